@@ -201,12 +201,18 @@ fn run_child(
     let mut done = false;
     let mut hung = false;
     let stage_s = stage.to_string();
+    // a worker first reads its input file and prepares its space (on a loaded machine, with a frontier
+    // of tens of thousands of states, that alone can take longer than one case): the per-case cap
+    // applies from the first heartbeat on
+    let mut started = false;
     loop {
-        match rx.recv_timeout(Duration::from_secs_f64(cap)) {
+        let wait = if started { cap } else { cap.max(300.0) };
+        match rx.recv_timeout(Duration::from_secs_f64(wait)) {
             Ok(line) => {
                 let mut parts = line.split('\t');
                 match parts.next() {
                     Some("B") => {
+                        started = true;
                         last_b = parts.next().and_then(|x| x.parse().ok());
                     }
                     Some("D") => {
